@@ -158,6 +158,28 @@ def main(pid):
     report(fails, [], obs2, "long document")
     ev.sample({"long_document_target": docs[0]["target"][:160], "anns": docs[0]["anns"][:4]})
 
+    # (C) the real-world pipeline on generated markup: clean -> get_citations -> annotate the source
+    # markup with the returned spans (span / full span / span with pin cite), skip and wrap
+    import chk_markup
+    import chk_extract
+    import gendocs
+    mk = chk_markup.documents(rnd, 400 if thorough else 120)
+    gd = list(gendocs.pairs())
+    rnd.shuffle(gd)
+    mk += [chk_extract.to_markup(d, rnd) for d in gd[: (1500 if thorough else 300)]]
+    pitems = []
+    for i, m in enumerate(mk):
+        for mode in ("skip", "wrap", "unchecked"):
+            pitems.append({"markup": m, "steps": [["html", "all_whitespace"], ["html"], ["html", "inline_whitespace"]][i % 3],
+                           "mode": mode, "dmp": i % 5 != 0, "which": ["span", "full", "pin"][(i // 3) % 3]})
+    obs4 = vlib.impl_map("drv_annotate", "run_pipeline", pitems)
+    fails, _ = tlc_judge("Trace_Annotate", "Trace_Annotate.cfg", obs4, ev, "pipeline", chunk=1500)
+    total += len(obs4)
+    report(fails, [], obs4, "markup pipeline")
+    ev.cov["pipeline_documents"] = len(mk)
+    ev.cov["pipeline_annotations"] = sum(len(o["anns"]) for o in obs4)
+    ev.sample({"pipeline_markup": mk[0][:160], "annotated": (obs4[0].get("output") or "")[:200]})
+
     # (C) arbitrary string pairs through SpanUpdater, both engines
     pairs = string_pairs(rnd, 20000 if thorough else 4000)
     obs3 = vlib.impl_map("drv_annotate", "run_updater", pairs)
